@@ -187,6 +187,11 @@ func (g *uciGen) goLine() (line string, selfEnds bool, ponder bool) {
 	if g.cfg.NoClock {
 		switch kind {
 		case 5, 6, 7:
+			if r.IntN(3) == 0 {
+				// a clock so large that it cannot bind, with a small depth limit: the
+				// outcome still cannot depend on the time that passes
+				return fmt.Sprintf("go wtime 1000000000 btime 1000000000 winc %d binc %d depth %d", pick(r, []int{0, 1000}), pick(r, []int{0, 1000}), 1+r.IntN(4)), true, false
+			}
 			kind = r.IntN(5)
 		case 8:
 			return fmt.Sprintf("go ponder depth %d", 1+r.IntN(5)), false, true
